@@ -256,7 +256,10 @@ def _nonneg(e, env, depth=0):
     if isinstance(e, ast.Attribute):
         return e.attr in NONNEG_FIELDS
     if isinstance(e, ast.Name):
-        return e.id in env and _nonneg(env[e.id], env, depth + 1)
+        v = env.get(e.id)
+        if isinstance(v, list):     # every definition that can reach the use (one per branch)
+            return bool(v) and all(x is not None and _nonneg(x, env, depth + 1) for x in v)
+        return v is not None and _nonneg(v, env, depth + 1)
     if isinstance(e, ast.Call):
         fn = unparse(e.func)
         if fn in ('abs', 'np.abs', 'np.fabs', 'np.hypot', 'np.sqrt', 'math.hypot', 'math.sqrt', 'np.absolute'):
@@ -271,10 +274,40 @@ def _nonneg(e, env, depth=0):
     return False
 
 
+def _definitions(fnode):
+    """{local: [every expression it is bound to]} (None for a binding that is not a plain expression: loop target, augmented
+    assignment, unpacking of a call): `a, b = x, y` and `a = b = x` bind element-wise."""
+    env = {}
+
+    def bind(t, v):
+        if isinstance(t, ast.Name):
+            env.setdefault(t.id, []).append(v)
+        elif isinstance(t, (ast.Tuple, ast.List)):
+            if isinstance(v, (ast.Tuple, ast.List)) and len(v.elts) == len(t.elts):
+                for a, b in zip(t.elts, v.elts):
+                    bind(a, b)
+            else:
+                for a in t.elts:
+                    bind(a, None)
+    for st in walk_no_nested(fnode):
+        if isinstance(st, ast.Assign):
+            for t in st.targets:
+                bind(t, st.value)
+        elif isinstance(st, (ast.AugAssign, ast.AnnAssign)):
+            bind(st.target, None if isinstance(st, ast.AugAssign) else st.value)
+        elif isinstance(st, (ast.For, ast.comprehension)):
+            bind(st.target, None)
+        elif isinstance(st, ast.NamedExpr):
+            bind(st.target, st.value)
+        elif isinstance(st, ast.withitem) and st.optional_vars is not None:
+            bind(st.optional_vars, None)
+    return env
+
+
 def rule_f(ctx, ix):
     """The pre-selection box of a region is an interval [centre - d, centre + d] with d >= 0 (never inverted)."""
     R = 'C08.f'
-    ctx.describe(R, 'pre-selection boxes: every interval is centre -/+ a half-extent that is non-negative for every parameter value', floor=6)
+    ctx.describe(R, 'pre-selection boxes: every interval is centre -/+ a half-extent that is non-negative for every parameter value', floor=2)
     n = 0
     for cq, c in sorted(ix.classes.items()):
         if not cq.startswith('glue.core.roi.'):
@@ -283,8 +316,7 @@ def rule_f(ctx, ix):
         f = m.func if m is not None else None
         if f is None:
             continue
-        env = {unparse(st.targets[0]): st.value for st in walk_no_nested(f.node)
-               if isinstance(st, ast.Assign) and isinstance(st.targets[0], ast.Name)}
+        env = _definitions(f.node)
         for r in returns_of(f):
             if not isinstance(r.value, (ast.List, ast.Tuple)):
                 continue
@@ -304,9 +336,9 @@ def rule_f(ctx, ix):
                        detail='%s returns the interval `%s` whose half-extent `%s` = `%s` can be negative (the sign of a cosine / sine, a '
                               'difference): the box is then inverted or too small, the pre-selection drops points that lie inside the region '
                               'and contains() answers False for them' % (f.construct, unparse(iv), unparse(d),
-                                                                        unparse(env[d.id]) if isinstance(d, ast.Name) and d.id in env else unparse(d)),
+                                                                        ' | '.join(unparse(x) if x is not None else '?' for x in env[d.id]) if isinstance(d, ast.Name) and d.id in env else unparse(d)),
                        where=where(f, r))
-    if n < 6:
+    if n < 2:     # one interval per axis, however many return statements the cases are spread over
         raise AnalysisError('C08.f: only %d pre-selection intervals recognised' % n)
 
 
